@@ -25,6 +25,7 @@ from vcommon import VERIF
 
 PROPS = ["Bee2V/C13/Props.lean", "Bee2V/C13/PropsRec.lean"]
 LENS = (16, 24, 32)
+HOOK = os.path.join(VERIF, "harness", "c13_hook.c")
 
 M_STD = {
     16: [0x87, 0x285, 0xC41, 0x1821, 0x8015, 0x8301, 0x20281, 0x22081, 0x2A001,
@@ -75,8 +76,15 @@ def is_irred(f):
         return True
     if not f & 1 or bin(f).count("1") % 2 == 0:
         return False
-    ps = [p for p in (2, 3, 5, 7, 11, 13) if l % p == 0]
-    assert all(p in (2, 3) for p in ps) or l < 128
+    ps, r, q = [], l, 2
+    while q * q <= r:
+        if r % q == 0:
+            ps.append(q)
+            while r % q == 0:
+                r //= q
+        q += 1
+    if r > 1:
+        ps.append(r)
     marks = {l // p for p in ps}
     h = 2
     for i in range(1, l + 1):
@@ -84,6 +92,17 @@ def is_irred(f):
         if i in marks and pgcd(h ^ 2, f) != 1:
             return False
     return h == 2
+
+
+def usable(u, f0, l):
+    """belsGenMi/Mid accept u iff its minimal polynomial over GF(2) has degree l (u in no proper subfield of
+    GF(2)[x]/(f0), f0 irreducible) and is not f0 (u is no root of f0)"""
+    t = u
+    for d in range(1, l // 2 + 1):
+        t = pmod(clmul(t, t), f0)
+        if l % d == 0 and t == u:
+            return False
+    return peval_mod(f0, u, f0) != 0
 
 
 def peval_mod(f, u, md):
@@ -222,6 +241,17 @@ def gen_ops(ctx, W, keys, tier, light=False):
             v = val(k)
             pert += [le(v ^ (1 << rng.randrange(8 * ln)), ln), le(v ^ 1, ln), le(v ^ (1 << (8 * ln - 1)), ln)]
         pert += [bytes(ln), le(1, ln), le(2, ln), le(3, ln), b"\xff" * ln, rb(rng, ln), rb(rng, ln), le(clmul(7, val(rb(rng, ln - 1))), ln)]
+        # products of two irreducible factors of degree l/2 (the last round of the Ben-Or loop decides), and of degrees 1 + (l-1)-ish
+        def rand_irred(deg):
+            while True:
+                c = (1 << deg) | rng.getrandbits(deg) | 1
+                if is_irred(c):
+                    return c
+        half = 4 * ln
+        for _ in range(1 if light else 2):
+            pert.append(le(clmul(rand_irred(half), rand_irred(half)), ln))
+        pert.append(le(clmul(rand_irred(half - 1), rand_irred(half + 1)), ln))
+        pert.append(le(clmul(rand_irred(2), rand_irred(8 * ln - 2)), ln))
         for k in pert:
             A(Op("valm %d %d %s" % (W, ln, H(k)), "valm", expect="0" if is_irred((1 << (8 * ln)) | val(k)) else "505"))
     for ln in (0, 8, 17, 40):
@@ -260,6 +290,18 @@ def gen_ops(ctx, W, keys, tier, light=False):
                 if j % 4 == 0:
                     A(Op(line, "genmid-again", pred=("same", line)))
     A(Op("genmid %d 12 %s 00" % (W, "00" * 12), "genmid-bad", expect="109 -"))
+    # ---- belsGenMid's retry loop on chosen elements (hash hook, harness/c13_hook.c)
+    for ln in LENS:
+        for m0 in (std_key(ln, 0), keys[ln][0]):
+            l = 8 * ln
+            f0 = (1 << l) | val(m0)
+            hi = val(rb(rng, 32 - ln)) << l                       # octets len..31 of the hash are cut by u[n] = 0
+            us = [2, 4, 16, 0, 1, 2 + hi, 1 + hi, pmod(1 << l, f0), pmod(1 << l, f0) ^ 1, (1 << l) - 1, (1 << l) - 2,
+                  val(rb(rng, 32)), val(rb(rng, 32)), 15, 255, 256]
+            for u in (us if not light else us[:7]):
+                A(Op("genmidu %d %d %s %s" % (W, ln, H(m0), H(le(u, 32))), "genmidu", pred=("gencands", ln, m0, u),
+                     why="belsGenMid with hash value u: tries u, u + 1, u + 2; the key is the minimal polynomial of the first usable one"))
+        A(Op("genmidu %d %d %s %s" % (W, ln, H(bytes(ln)), H(rb(rng, 32))), "genmidu-badm0"))
     # ---- share / recover
     exh_max = 3 if light else (4 if tier == "quick" else 6)
 
@@ -379,39 +421,42 @@ def check_pred(op, out, outs_by_line):
                 break
         e = ("0 " + H(want)) if want is not None else "305 -"
         return None if out == e else "first irreducible candidate of the tape: `%s`" % e
-    if p[0] in ("genmi", "genmid"):
+    if p[0] in ("genmi", "genmid", "gencands"):
         ln, m0 = p[1], p[2]
+        l = 8 * ln
+        f0 = (1 << l) | val(m0)
+        cands = None
+        if p[0] == "genmi":
+            cands = [val((p[3][i * ln:(i + 1) * ln] + bytes(ln))[:ln]) for i in range(3)]
+        elif p[0] == "gencands":
+            cands = [(p[3] % (1 << l) + i) % (1 << l) for i in range(3)]        # u, u + 1, u + 2 on n words
+        if cands is not None and not is_irred(f0):
+            return None                                                           # outside \expect: model = code only
+        first = None
+        if cands is not None:
+            for u in cands:
+                if usable(u, f0, l):
+                    first = u
+                    break
         if code != "0":
-            if p[0] == "genmi":
-                # the code accepts u iff its minimal polynomial has degree l (u lies in no proper subfield) and is not f0
-                # (u is no root of f0); if one of the three candidates qualifies, a failure contradicts the property
-                tp, f0 = p[3], (1 << (8 * ln)) | val(m0)
-                if not is_irred(f0):
-                    return None
-                l = 8 * ln
-                for i in range(3):
-                    u = val((tp[i * ln:(i + 1) * ln] + bytes(ln))[:ln])
-                    t, gen = u, True
-                    for d in range(1, l // 2 + 1):
-                        t = pmod(clmul(t, t), f0)
-                        if l % d == 0 and t == u:
-                            gen = False
-                            break
-                    if gen and peval_mod(f0, u, f0) != 0:
-                        return "candidate %d of the tape generates the field and is no root of f0, yet no key was produced" % i
-                return None
-            return "belsGenMid failed for a valid common key"
+            if cands is None:
+                return "belsGenMid failed for a valid common key"
+            if first is not None:
+                return "a candidate generates the field and is no root of f0, yet no key was produced"
+            if p[0] == "gencands" and out != "505 -":
+                return "belsGenMid: all three candidates unusable demands ERR_BAD_PUBKEY"
+            return None
         k = bytes.fromhex(buf)
-        f = (1 << (8 * ln)) | val(k)
+        f = (1 << l) | val(k)
         if k == m0:
             return "generated key equals the common key"
         if not is_irred(f):
             return "generated key x^l + mi is not irreducible"
-        if p[0] == "genmi":
-            tp, f0 = p[3], (1 << (8 * ln)) | val(m0)
-            cands = [val((tp[i * ln:(i + 1) * ln] + bytes(ln))[:ln]) for i in range(3)]
-            if not any(peval_mod(f, u, f0) == 0 for u in cands):
-                return "generated key does not annihilate any of the three tape elements"
+        if cands is not None:
+            if first is None:
+                return "no candidate is usable, yet a key was produced"
+            if peval_mod(f, first, f0) != 0:
+                return "generated key is not the minimal polynomial of the first usable candidate"
         return None
     if p[0] == "share3":
         ln, count, thr, s = p[1:]
@@ -479,7 +524,7 @@ def run(ctx):
     kinds = {}
     distinct = set()
     for cfg, W in (("asan", 64), ("w32", 32)):
-        exe = ctx.cc("harness/c13.c", cfg)
+        exe = ctx.cc("harness/c13.c", cfg, extra=(HOOK,))
         keys, pre = gen_keys(ctx, exe, W)
         ops = corpus_ops(W) + pre + gen_ops(ctx, W, keys, tier, light=(cfg == "w32" and tier == "quick"))
         lines = [o.line for o in ops]
@@ -560,7 +605,7 @@ def replay(ctx, path):
     if op is None:
         print("replay file names a theorem, nothing to execute")
         return 0
-    exe = ctx.cc("harness/c13.c", cfg)
+    exe = ctx.cc("harness/c13.c", cfg, extra=(HOOK,))
     out, err, rc = ctx.run_lines(exe, [op])
     got = out[0] if out else "CRASH rc=%d %s" % (rc, err[-300:])
     print("impl:", got)
